@@ -222,8 +222,8 @@ def execute(ctx, case):
 
 
 def run(ctx):
-    ctx.set_budget(60, 700)
-    ctx.explore(case_st, lambda c: execute(ctx, c), ctx.scale(3500, 40000))
+    ctx.set_budget(60, 840)
+    ctx.explore(case_st, lambda c: execute(ctx, c), ctx.scale(2500, 40000))
 
 
 def replay(ctx, case):
